@@ -647,7 +647,13 @@ fn dump(tcx: TyCtxt<'_>) {
                 let adt = tcx.adt_def(did);
                 let (file, line, _, exp) = cx.loc(tcx.def_span(did));
                 let mut variants = vec![];
-                for v in adt.variants().iter() {
+                for (vidx, v) in adt.variants().iter_enumerated() {
+                    // discriminant value as MIR switches see it (explicit `= n` values included)
+                    let dval: Option<u128> = if adt.is_enum() {
+                        Some(adt.discriminant_for_variant(tcx, vidx).val)
+                    } else {
+                        None
+                    };
                     let fields: Vec<J> = v
                         .fields
                         .iter()
@@ -666,10 +672,14 @@ fn dump(tcx: TyCtxt<'_>) {
                             ])
                         })
                         .collect();
-                    variants.push(J::Obj(vec![
+                    let mut vo = vec![
                         ("name", s(v.name.to_string())),
                         ("fields", J::Arr(fields)),
-                    ]));
+                    ];
+                    if let Some(d) = dval {
+                        vo.push(("discr", s(d.to_string())));
+                    }
+                    variants.push(J::Obj(vo));
                 }
                 adts.push(J::Obj(vec![
                     ("def", s(cx.path(did))),
